@@ -57,6 +57,11 @@ for raw in open(spec_path):
 proto_re = re.compile(r'^\s*([A-Za-z_][\w\s]*?[\w\*])\s*\**\s*\b((?:Avtp|avtp)_\w+)\s*\(([^;{}()]*?)\)\s*(?:[A-Za-z_]\w*\s*(?:\(\([^;{}]*?\)\))?\s*)*;', re.M | re.S)
 warnings = []
 all_tables = []
+# structured entry points that have hand-written drivers (engines/reent/drv_*.c); any OTHER function that cannot be bound to a field
+# is reported as not exercised (kind 7), so that a new public function does not silently stay outside every check
+HAND_DRIVEN = set('''Avtp_Can_CreateAcfMessage Avtp_Can_GetPayload Avtp_Can_SetPayload Avtp_Can_Finalize Avtp_Can_GetCanPayloadLength
+Avtp_CanBrief_SetPayload Avtp_CanBrief_Finalize Avtp_Vss_Pad Avtp_Vss_GetVssPath Avtp_Vss_GetVssData Avtp_Vss_GetVSSDataStringArrayLength
+Avtp_Vss_CalcVssPathLength Avtp_Vss_DeserializeStringArray Avtp_Vss_SetVssPath Avtp_Vss_SetVssData Avtp_Vss_SerializeStringArray'''.split())
 
 for f in formats:
     hdr_path = os.path.join(inc, f['header'])
@@ -74,6 +79,12 @@ for f in formats:
         full = m.group(0)
         ret_ptr = bool(re.search(r'\*\s*' + re.escape(name), full))
         protos.append({'ret': ret, 'ret_ptr': ret_ptr, 'name': name, 'args': [a.strip() for a in args.split(',')] if args.strip() else []})
+    # functions DEFINED in the header (static inline): public entry points as well
+    for m in re.finditer(r'^\s*((?:static\s+|inline\s+|extern\s+)+[A-Za-z_][\w\s]*?[\w\*])\s*\**\s*\b((?:Avtp|avtp)_\w+)\s*\(([^;{}()]*?)\)\s*\{', code, re.M | re.S):
+        if m.group(2) not in [p['name'] for p in protos]:
+            args = ' '.join(m.group(3).split())
+            protos.append({'ret': m.group(1).strip(), 'ret_ptr': bool(re.search(r'\*\s*' + re.escape(m.group(2)), m.group(0))), 'name': m.group(2),
+                           'args': [a.strip() for a in args.split(',')] if args.strip() else [], 'inline_def': True})
     byname = {p['name']: p for p in protos}
     # function-like macros with an accessor name are public accessors too (compatibility spellings and the like)
     for m in re.finditer(r'^[ \t]*#[ \t]*define[ \t]+((?:Avtp|avtp)_\w+)\(([^)]*)\)', code, re.M):
@@ -128,9 +139,12 @@ for f in formats:
                 setters.setdefault(fld, []).append(p)
             else:
                 kind = 0
-        funcs.append((name, kind, bound))
-        if not bound:
+        if not bound and name not in HAND_DRIVEN:
+            kind = 7
+            warnings.append('%s: %s is a public function that no generated call and no driver exercises' % (f['name'], name))
+        elif not bound:
             warnings.append('%s: %s is not a field accessor (left to hand-written drivers)' % (f['name'], name))
+        funcs.append((name, kind, bound))
 
     T = ctype
     if has_init:
